@@ -167,6 +167,11 @@ def gen_case(ctx, g, focus=None):
             # one cell that is not a number in either language (an EMPTY or blank cell included: Number('') is 0 in JavaScript, but an
             # empty cell is not a number - the reference semantics fail at that record)
             A[r.randrange(len(A))][numcol] = r.choice(['x', '', ' ', '1.2.3', '1,5'])
+        elif len(A) > 1 and r.random() < 0.05:
+            # a record that LACKS the aggregated field (never the first record: which values need converting is decided on the first
+            # one in rbql-py - NumHandler's string detection): a missing field is not a number either (Number(null) is 0 in JavaScript)
+            k = r.randrange(1, len(A))
+            A[k] = A[k][:numcol]
         items = []
         for _ in range(r.randint(1, 3)):
             if r.random() < 0.75:
